@@ -45,7 +45,7 @@ var checks = map[string]checkSpec{
 		Rule: "For every response kind of the corpus (Conn: ApiVersions, Metadata v1/v6, ListOffsets, Produce v2/v3/v7, CreateTopics, DeleteTopics, Fetch v2/v5/v10 with magic 0/1/2 and gzip/snappy/zstd payloads; Transport: Fetch, Metadata, ListOffsets, Produce, OffsetFetch, OffsetCommit, FindCoordinator, JoinGroup, SyncGroup, Heartbeat, LeaveGroup, CreateTopics, DeleteTopics, InitProducerID, ApiVersions, DescribeGroups, ListGroups at the low and high ends of their negotiable versions incl. flexible ones) the response is delivered up to byte k and the connection then ends with EOF or RST, for every k in [0, 2048] (positions beyond the response length deliver it whole: the complete-value check); the run index walks a bijection of that space, so the thorough tier covers every (kind, k, mode) once.",
 	},
 	"C20": {
-		Scenarios: []scnSpec{{Name: "lenfuzz", Share: 0.9, CountKey: "lenfuzz", MemLimitKB: 8 << 20}, {Name: "saslraw", Share: 0.1, CountKey: "saslraw", MemLimitKB: 8 << 20}},
+		Scenarios: []scnSpec{{Name: "lenfuzz", Share: 0.55, CountKey: "lenfuzz", MemLimitKB: 8 << 20}, {Name: "sizecut", Share: 0.4, CountKey: "sizecut", MemLimitKB: 8 << 20}, {Name: "saslraw", Share: 0.05, CountKey: "saslraw", MemLimitKB: 8 << 20}},
 		Quick:     25 * time.Second, Thorough: 10 * time.Minute, Level: "fault_enumeration",
 		Rule:   "For every Transport/Client response kind of the corpus, every length or count field of the encoded response (frame size, fixed and compact string/bytes/array lengths, tagged-field counts and sizes, record-set size, batch length / message size and, left with their wrong checksum, the lengths inside record batches) is overwritten with each value of {-2^31, -2, -1, 0, 1, 2^16, 2^31-1, (varints:) 2^32, 2^63-1, true-1, true+1, rest-of-frame+1}; the call must return (no panic, no process death), within its deadline, and allocate no more than 64 x bytes received + 1 MiB (+ a fixed decompressor allowance).",
 		Assume: []string{"allocation is measured with runtime.MemStats.TotalAlloc around the call in a single-goroutine-at-a-time simulation"},
